@@ -161,3 +161,14 @@ package types
 // (all acceptance sequences over a small header tree), not proved; here only the frame is proved.
 // verif:func (ClientState).RestrictChain
 //@ modifies store
+
+// ======================= C15: client creation / upgrade from a governance proposal never panics in EndBlock =========
+// ("nopanic dryrun": a panic site whose guard depends on the proposal content only and that lies on every
+// nil-returning path is covered by the governance submission dry-run, DESIGN section 8 C15 tier ii)
+// verif:func (ClientState).Initialize
+//@ nopanic dryrun
+//@ modifies store
+
+// verif:func (ClientState).UpgradeState
+//@ nopanic dryrun
+//@ modifies store
